@@ -6,13 +6,13 @@ d=$1; name=$2; shift 2
 set -u
 cd $d || exit 2
 export PYTHONPATH=$d/src JAX_ENABLE_X64=1 JAX_PLATFORMS=cpu
-git diff -- src > /tmp/seed/_cur.diff
+git diff -- src > $(dirname $d)/_cur.diff
 if [ ! -s patch.diff ]; then echo "no patch.diff"; exit 2; fi
 # make sure the tree holds exactly patch.diff
 git checkout -q -- src && git apply patch.diff || { echo "patch does not apply"; exit 2; }
-/venv/bin/python demo.py > /tmp/seed/_demo_with.log 2>&1; with=$?
+/venv/bin/python demo.py > $(dirname $d)/_demo_with.log 2>&1; with=$?
 git apply -R patch.diff
-/venv/bin/python demo.py > /tmp/seed/_demo_without.log 2>&1; without=$?
+/venv/bin/python demo.py > $(dirname $d)/_demo_without.log 2>&1; without=$?
 git apply patch.diff
 echo "demo with change: exit $with ; without: exit $without"
 suite=$(/venv/bin/python -m pytest -q -p no:cacheprovider -n 8 --timeout=900 tests 2>&1 | tail -1)
